@@ -72,6 +72,14 @@ class Hub:
     def P(self, who, what, i):
         self.log.setdefault(who, []).append((what, i))
 
+    def JOB(self, who, event):
+        # action code consumes a mutable event parameter in place
+        jobs = getattr(event, 'jobs', None) if event is not None else None
+        if jobs is not None:
+            self.log.setdefault(who, []).append(('jobs', list(jobs)))
+            if jobs:
+                jobs.pop(0)
+
     def DL(self, who):
         n = self.ndl.get(who, 0)
         self.ndl[who] = n + 1
@@ -131,7 +139,7 @@ def build(g, chart):
         if kind == 'guard':
             return 'VF.G(WHO, %d, event)' % ident
         if kind == 'action':
-            s = 'VF.A(WHO, %d)\nx = x + D' % ident
+            s = 'VF.A(WHO, %d)\nx = x + D\nNL[0].append(1)\nVF.JOB(WHO, event)' % ident
             if ident == 0:
                 s += "\nsend('b', k=x, delay=VF.DL(WHO))"
             return s
@@ -144,6 +152,9 @@ def build(g, chart):
         st = sc.state_for(cm.names[i])
         if i % 3 == 0:
             st.invariants.append('x >= __old__.x')
+            # FrozenContext is a *shallow* copy: the inner list is shared with the live context, so this holds
+            # by aliasing -- before and after a snapshot alike
+            st.invariants.append('len(__old__.NL[0]) == len(NL[0])')
         elif i % 3 == 1:
             st.postconditions.append('x >= __old__.x')
     for t, tr in enumerate(trs):
@@ -186,7 +197,7 @@ def harness(g, chart, level, canary=False):
         method = ['pickle', 'deepcopy'][g.choice('method', 2)]
     its = {}
     for who in ('plain', 'orig'):
-        its[who] = Interpreter(sc, initial_context={'WHO': who, 'x': x0, 'D': D})
+        its[who] = Interpreter(sc, initial_context={'WHO': who, 'x': x0, 'D': D, 'NL': [[0]]})
     hist = []
     info = lambda: {'chart': cm.describe(), 'snapshot_before_step': snap_at, 'method': method, 'events': hist}   # noqa: E731
 
@@ -242,7 +253,8 @@ def harness(g, chart, level, canary=False):
         for w in whos:
             its[w].clock.time = its[w].clock.time + adv
             if ev:
-                its[w].queue(ev)
+                from sismic.model import Event as _Ev
+                its[w].queue(_Ev(ev, jobs=[1, 2, 3]))      # every interpreter gets its own parameter object
         r = {w: run(w, lambda it: it.execute_once()) for w in whos}
         stop = compare('plain', 'orig', r['plain'], r['orig'], 'undisturbed')
         if 'rest' in its:
